@@ -16,7 +16,7 @@ RULE = ("binarize: Hypothesis head-marked trees (<=10/14 tokens, arity 1..6, hea
 ASSUMPTIONS = ["'none of which carries a head mark' is read as: no head key on any node (heads never marked)",
                "after collapsing, only labels, words, POS and structure are compared (the collapse documents no more)"]
 
-CAT = st.sampled_from(["S", "NP", "VP", "PP", "X", "AP"])
+CAT = st.sampled_from(["S", "NP", "VP", "PP", "X", "AP", "-NONE-", "X-", "--"])
 
 
 @st.composite
